@@ -174,7 +174,7 @@ def gen_curie_remapping(rng, recs):
     fresh = ["new1", "new2", "NEW", "z", "y9", ""]
     keys_pool = canon * 3 + syns * 2 + ["unknown", "nope"]
     m = {}
-    kind = rng.choice(["simple", "simple", "chain", "swap", "onto_syn", "onto_other", "mixed", "partial_chain", "dupval", "dupkey", "inconsistent"])
+    kind = rng.choice(["simple", "simple", "chain", "swap", "onto_syn", "onto_other", "mixed", "partial_chain", "dupval", "dupkey", "inconsistent", "cycle_unused"])
     k = rng.randint(1, 4)
     if kind == "simple":
         for _ in range(k):
@@ -204,6 +204,19 @@ def gen_curie_remapping(rng, recs):
         v = rng.choice(fresh)
         m[a] = v
         m[b] = v
+    elif kind == "cycle_unused" and canon:
+        # a cycle that runs through a name nobody uses yet, with or without a pair outside the cycle
+        a = rng.choice(canon + syns)
+        x, y = rng.sample(["new1", "new2", "z", "y9"], 2)
+        if rng.random() < 0.5:
+            m[a] = x
+            m[x] = a
+        else:
+            m[a] = x
+            m[x] = y
+            m[y] = a
+        if rng.random() < 0.7:
+            m[rng.choice(["nope", "unknown"] + canon)] = rng.choice(["nada", "fresh7"])
     elif kind == "dupkey" and any(r[2] for r in recs):
         r = rng.choice([r for r in recs if r[2]])       # two keys naming the same record
         a, b = rng.sample([r[0], *r[2]], 2)
